@@ -63,3 +63,10 @@ package controllerv1
 //@ func ErrorHandler [C01,C05]
 //@   modifies statusWrites, lastStatus
 //@   ensures answered-unless-client-hung-up: statusWrites == old(statusWrites) + 1 || hasPrefix(errText(err), "connection reset by peer")
+
+// A snappy body is only inflated when the length it declares is at most 10 MiB: the
+// decoder allocates the declared length before it looks at the data, so a few bytes
+// could otherwise make the push routes allocate gigabytes.
+//@ func init$1$1 [C05]
+//@   flag checks=-index,-assert
+//@   at snappy.Decode$ never-inflates-more-than-10-MiB: uncompressedLen <= 10485760
